@@ -60,4 +60,5 @@ put('C11', 'f16-two-colour-shortcut', {'what': 'colourful', 'kind': 'png', 'sym'
     'opts': {'dark': '#c17690', 'light': None, 'version_dark': None, 'scale': 1}}, note='fixed 20993bd')
 put('C11', 'f24-all-transparent', {'what': 'colourful', 'kind': 'png', 'sym': {'content': enc_content('1'), 'kw': {'version': 1, 'mask': 0}},
     'opts': {'dark': None, 'light': None, 'scale': 1}}, note='fixed 170b03b')
+put('C09', 'f27-float-alpha-png', {'sym': {'content': enc_content('12345'), 'kw': {'version': 1, 'mask': 2}}, 'kind': 'png', 'opts': {'dark': [255, 0, 0, 0.5], 'border': 1}}, note='fixed 288f385')
 print('C11 regress written')
